@@ -200,8 +200,8 @@ func FirstCalls() []fw.Call {
 func Run(r *fw.Run) {
 	defer fw.FirstCallOrders(r, r.ID, FirstCalls(), nil)
 	depth := r.Pick(2, 3)
-	ops := modedit.ModOps(r.Thorough())
-	wops := modedit.WorkOps(r.Thorough())
+	ops := append(modedit.ModOps(r.Thorough()), modedit.UncleanedSetterOps(false)...)
+	wops := append(modedit.WorkOps(r.Thorough()), modedit.UncleanedSetterOps(true)...)
 	r.Bounds["depth"] = depth
 	modSeeds := append(append([]string{}, modedit.ModSeeds...), modedit.ModSeedsTypedOnly...)
 	r.Bounds["go_mod_seeds"] = len(modSeeds)
